@@ -44,7 +44,7 @@ def plan(tier, seed):
                 if d + sh > 126 or sh >= d:
                     continue
                 regs.append('c05::Shift<%s, %d>::reg("%d_%s|%d")' % (el(d, n), sh, d, short(n), sh))
-    cases = 8000 if quick else 80000
+    cases = 20000 if quick else 120000
     units = [Unit('C05-gxx-%d' % i, 'gxx', 'props/C05.h', part, rc_cases=cases, enum_max=2 ** 22, chunk=8)
              for i, part in enumerate(split(regs, 16))]
     cl = [r for r in regs if 'Bin<' in r][:24]
